@@ -838,10 +838,12 @@ pub fn c04(tier: &str) -> ! {
         fams.push(mk("C04/M2/d5xL3", "M2", a_c04(), 5, 3, false).lazy());
         fams.push(mk("C04/T300c/d4xL4", "T300c", a1(), 4, 4, true));
     } else {
-        fams.push(mk("C04/T300/d4xL3", "T300", a1(), 4, 3, true));
+        fams.push(mk("C04/T300/d3xL3", "T300", a1(), 3, 3, true));
+        fams.push(mk("C04/T300/d4xL2", "T300", a1(), 4, 2, true));
         fams.push(mk("C04/T1+snap/d3xL3", "T1", a_c04(), 3, 3, true));
         fams.push(mk("C04/T300+snap/d2xL4", "T300", a_c04(), 2, 4, true));
-        fams.push(mk("C04/M2/d4xL3", "M2", a1(), 4, 3, false).lazy());
+        fams.push(mk("C04/M2/d3xL3", "M2", a1(), 3, 3, false).lazy());
+        fams.push(mk("C04/M2/d4xL2", "M2", a1(), 4, 2, false).lazy());
         fams.push(mk("C04/T300c/d3xL3", "T300c", a1(), 3, 3, true));
     }
     run_families(&mut rep, fams, budget(tier), |c| c.starts_with("C04.") || c == "iter.err");
